@@ -3,9 +3,13 @@
 # usage: tools/seedsweep.sh [P] [filter-regex]
 P=${1:-4}; F=${2:-.}
 cd "$(dirname "$0")/.." || exit 2
-extra() { case "$1" in C04-m1) echo C07;; C04-m2) echo C15;; C04-m3) echo C14;; C06-m1) echo C14;; C09-m1) echo C17;; C15-m3) echo C12;; C02-m1) echo C12;; C17-m1) echo C09;; esac; }
+extra() { case "$1" in C04-m1) echo C07;; C04-m2) echo C15;; C04-m3) echo C14;; C06-m1) echo C14;; C09-m1) echo C17;; C15-m3) echo C12;; C02-m1) echo C12;; C17-m1) echo C09;;
+  C01-m4) echo C06;; C01-m5) echo C12 C15;; C01-m6) echo C15 C02;; C02-m5) echo C07;; C03-m4) echo C07;; C03-m5) echo C17;; C03-m6) echo C16;; C04-m5) echo C17;;
+  C05-m5) echo C15;; C05-m6) echo C14;; C08-m6) echo C19;; C09-m4) echo C19;; C09-m6) echo C08;; C10-m5) echo C14;; C12-m4) echo C14;; C12-m7) echo C18;; C13-m6) echo C06 C09;;
+  C17-m4) echo C12 C02;; C17-m5) echo C03;; C19-m4) echo C09;; esac; }
 for d in seeded/*/; do
   id=$(basename "$d"); echo "$id" | grep -Eq "$F" || continue
+  if [ -n "${SKIP_REPORTED:-}" ] && python3 -c "import json,sys; m=json.load(open('$d/meta.json')); sys.exit(0 if any(x.get('detected') for x in m.get('detection',[])) or m.get('not_demanded') else 1)"; then continue; fi
   pid=${id%%-*}; n=${id##*-m}
   mkdir -p /tmp/seed/$pid/OUT
   [ -f /tmp/seed/$pid/OUT/m$n.diff ] || { cp "$d/patch.diff" /tmp/seed/$pid/OUT/m$n.diff; rm -rf /tmp/seed/$pid/OUT/m$n.demo; cp -r "$d/demo" /tmp/seed/$pid/OUT/m$n.demo; python3 - "$d" /tmp/seed/$pid/OUT/m$n <<'PY'
